@@ -79,9 +79,33 @@ def grad_child(payload):
     return out
 
 
+def support_child(payload):
+    """supports of the real auto-generated priors, per profile type: name -> (low, high) in the parameter's own units"""
+    import numpy as np
+    import pysersic.priors as PR
+    out = {}
+    for t in RC.PROFILE_TYPES:
+        props = PR.SourceProperties(-99)
+        props.set_sky_guess(sky_guess=0.0, sky_guess_err=1.0)
+        props.set_flux_guess(100.0)
+        props.set_r_eff_guess(r_eff_guess=3.0)
+        props.set_position_guess((16.0, 16.0))
+        props.set_theta_guess(0.3)
+        prior = props.generate_prior(t)
+        sup = {}
+        for k, d in prior.dist_dict.items():
+            s_ = d.support
+            lo = float(getattr(s_, "lower_bound", -np.inf))
+            hi = float(getattr(s_, "upper_bound", np.inf))
+            sup[k] = (lo, hi)
+        out[t] = sup
+    return out
+
+
 def gen_cases(ctx, n):
     rng = ctx.rng("oracle")
     cases = []
+    real_sup = run_children("c10", "support_child", [dict()], x64=False)[0]
     N = 32
     lattice = [(16.0, 16.0), (5.0, 7.0), (15.5, 16.5), (16.0, 15.5), (0.0, 0.0), (31.0, 12.0), (-20.0, 10.0), (40.5, 51.0), (16.25, 16.75), (-0.5, 31.5)]
 
@@ -112,6 +136,13 @@ def gen_cases(ctx, n):
             p.update(f_1=ff(), r_eff_1=rr(), n_1=nn(), ellip_1=ee(), r_eff_2=rr(), n_2=nn(), ellip_2=ee(), theta=th)
         elif t == "sersic_exp":
             p.update(f_1=ff(), r_eff_1=rr(), n=nn(), ellip_1=ee(), r_eff_2=rr(), ellip_2=ee(), theta=th)
+        # the property quantifies over what the priors can produce: clip to / push onto the supports of the REAL auto-generated priors
+        for name, (lo, hi) in real_sup.get(t, {}).items():
+            if name in p and name not in ("xc", "yc", "flux"):
+                if np.isfinite(lo) and (p[name] < lo or rng.random() < 0.15):
+                    p[name] = lo + (1e-6 * max(1.0, abs(lo)) if name.startswith("r_eff") else 0.0)
+                if np.isfinite(hi) and p[name] > hi:
+                    p[name] = hi
         cases.append(dict(kind=kind, N=N, ptype=t, params=p, wseed=int(rng.integers(0, 1000)), eager=(k % 6 == 0)))
     return cases
 
